@@ -339,6 +339,12 @@ def jobs(tier, seed):
         out.append(Job("C06_scalar_" + to.tag, scalar_source(to, froms),
                        [dict(name="conv %s<-%s" % (to.tag, f.tag), fn=check_scalar, kw=dict(to=to, frm=f)) for f in froms],
                        flags=["-fno-exceptions"]))
+    # configuration: RLBOX_USE_EXCEPTIONS requested but the TU is built without exception support - a refused conversion
+    # must still stop (the abort fallback), never fall through to the cast
+    for to in (C.ALL_INTS if tier == "thorough" else C.ALL_INTS[::4]):
+        out.append(Job("C06_scalar_noexc_" + to.tag, scalar_source(to, froms),
+                       [dict(name="conv %s<-%s [RLBOX_USE_EXCEPTIONS, -fno-exceptions]" % (to.tag, f.tag), fn=check_scalar, kw=dict(to=to, frm=f)) for f in froms],
+                       flags=["-fno-exceptions", "-DRLBOX_USE_EXCEPTIONS"]))
     fw8 = {t.tag: t for t in C.FW}
     pq = [("i32", "i64"), ("u32", "u64"), ("i64", "i32"), ("i32", "i32"), ("u32", "i32"), ("i32", "u32")]
     shapes_q = {("i32", "i64"): [(3,), (2, 3)], ("u32", "i32"): [(3,), (2, 2)]}
